@@ -906,6 +906,21 @@ func (e *Exec) convert(s *State, i *ssa.Convert) Val {
 	if r, ok := e.convertRunes(s, i, v); ok {
 		return r
 	}
+	// string <-> []byte: the bytes of a text are that text (only passed on, compared
+	// or returned in the code under contract; indexing such a value is not modelled)
+	isBytes := func(t types.Type) bool {
+		sl, ok := t.(*types.Slice)
+		if !ok {
+			return false
+		}
+		b, ok := sl.Elem().Underlying().(*types.Basic)
+		return ok && b.Kind() == types.Uint8
+	}
+	if _, isText := v.(Text); isText {
+		if (fok && fb.Info()&types.IsString != 0 && isBytes(to)) || (isBytes(from) && tok && tb.Info()&types.IsString != 0) {
+			return v
+		}
+	}
 	unsupported("conversion %s -> %s", i.X.Type(), i.Type())
 	return nil
 }
